@@ -6,6 +6,7 @@ import pipeline
 import vlib
 
 SUB, JUDGE = "registry", "RegistryTrace"
+FATAL = "fatal error: concurrent map"
 
 
 def cfg(family, stride=1, cls=32768, low="<<11, 0, 4>>"):
@@ -43,12 +44,22 @@ def run(ctx):
     vlib.write_ndjson(cp, [dict(id="conc-%d" % g, k="conc", names=names + ["NXM_NX_REG16", ""], goroutines=g,
                                 iters=iters, seed=ctx.seed) for g in gs])
     env, rdir = vlib.race_env(ctx, "c15")
-    tr = pipeline.record(ctx, "registry-conc", cp, race=True, env=env)
+    fatal = None
+    try:
+        tr = pipeline.record(ctx, "registry-conc", cp, race=True, env=env)
+    except vlib.Infra as e:
+        # the Go runtime's detector of unsynchronised map access aborts the process (not recoverable): the registry was written during
+        # concurrent lookups.  Real-code behaviour, reported as a violation; any other harness death stays exit 2.
+        if FATAL not in str(e):
+            raise
+        fatal, tr = str(e)[str(e).find(FATAL):][:1500], None
     nrace, first = vlib.race_reports(rdir)
-    vlib.patch_obs(tr, lambda r: r["obs"].__setitem__("races", nrace))
+    crecs = []
+    if tr:
+        vlib.patch_obs(tr, lambda r: r["obs"].__setitem__("races", nrace))
+        crecs = vlib.judge(ctx, JUDGE, tr, workers=1, label="RegistryTrace:conc")
     if first:
         ctx.extra["race_report"] = first
-    crecs = vlib.judge(ctx, JUDGE, tr, workers=1, label="RegistryTrace:conc")
     for r in crecs:
         r["_trace"], r["_scen"] = tr, cp
     ctx.extra.update(names=len(names), lookups=nN, low_halves=nL, classes=nC, swept_words=count,
@@ -61,6 +72,10 @@ def run(ctx):
             property=ctx.pid, sub="registry-conc", judge=JUDGE, constants="", race=True,
             scenario=vlib.nth_line(tr, r["line"] if "line" in r else r["reject"]), judge_record={k: v for k, v in r.items() if not k.startswith("_")},
             race_report=first)))
+    if fatal:
+        viol.append(vlib.save_replay(ctx.pid, "%s-conc-fatal" % ctx.tier, dict(
+            property=ctx.pid, sub="registry-conc", judge=JUDGE, constants="", race=True, scenario=vlib.nth_line(cp, 1),
+            judge_record=dict(pred="the process survives concurrent lookups", runtime=fatal), race_report=first)))
     return vlib.finish(
         ctx, "model_checking",
         "TLC enumerates every name of Registry.tla (transcribed from OF 1.3.5 / OVS meta-flow.h) x mask x {upper, lower, mixed} "
@@ -77,7 +92,13 @@ def run(ctx):
 def replay(ctx, obj):
     if obj.get("sub") == "registry-conc":
         env, rdir = vlib.race_env(ctx, "replay")
-        again, observed = pipeline.confirm(ctx, "registry-conc", obj["judge"], "", obj["scenario"], race=True, env=env)
+        try:
+            again, observed = pipeline.confirm(ctx, "registry-conc", obj["judge"], "", obj["scenario"], race=True, env=env)
+        except vlib.Infra as e:
+            if FATAL not in str(e):
+                raise
+            print("VIOLATION property=%s replay=<this file> (reproduced: the Go runtime aborted the process: concurrent map access)" % ctx.pid)
+            return 1
         nrace, _ = vlib.race_reports(rdir)
         if again or nrace:
             print("VIOLATION property=%s replay=<this file> (reproduced: races=%d)" % (ctx.pid, nrace))
